@@ -304,11 +304,17 @@ def native_replay(h, cfg=None, timeout=2400):
             out["output"] = (p.stdout + p.stderr)[-1500:]
             return out
         out["generated"] = True
-        out["test"] = tests[0][0]
-        q = subprocess.run(["cargo", "kani", "playback", "-Z", "concrete-playback", "-Z", "function-contracts", "-Z", "stubbing", "--", tests[0][1]],
+        # Kani also writes playback tests for satisfied kani::cover! statements: run ALL tests generated for this harness,
+        # the counterexample is the one that fails natively
+        q = subprocess.run(["cargo", "kani", "playback", "-Z", "concrete-playback", "-Z", "function-contracts", "-Z", "stubbing", "--", "kani_concrete_playback_%s" % h],
                            cwd=d, capture_output=True, text=True, env=env, timeout=timeout)
         txt = q.stdout + q.stderr
         out["output"] = txt[-2500:]
+        failed_names = set(re.findall(r"test (?:\S+::)?(kani_concrete_playback_\w+) \.\.\. FAILED", txt))
+        pick = [t for t in tests if t[1] in failed_names] or tests
+        out["test"] = pick[0][0]
+        out["tests_generated"] = len(tests)
+        out["tests_failed_natively"] = sorted(failed_names)
         ms = re.findall(r"test result: (\w+)\. (\d+) passed; (\d+) failed", txt)
         ran = sum(int(a) + int(b) for _, a, b in ms)
         if ran > 0:
